@@ -414,14 +414,20 @@ def chain_rules(prog, R):
         for x in sorted(b.cfg.reachable):
             if not any(st.k == 'assign' and st.place.local == 1 and [q['name'] for q in st.place.proj if q['k'] == 'field'] == names for st in b.blocks[x].stmts):
                 continue
-            for p in Sym(prog, b).run(x, stops=set(b.cfg.reachable) - {x}, init=self_init()):
+            # (from the function entry when the function is small: the new start may be computed in an earlier block)
+            small = len(b.cfg.reachable) <= 24 and not b.cfg.natural_loops()
+            seen_v = set()
+            for p in (Sym(prog, b).run(0, init=self_init()) if small else Sym(prog, b).run(x, stops=set(b.cfg.reachable) - {x}, init=self_init())):
                 for (_, loc, v) in p.writes:
                     if loc == start_loc and isinstance(v, Aff) and v.t.get(locs[3]) == 1:
+                        if repr(v) in seen_v:
+                            continue
+                        seen_v.add(repr(v))
                         nadv += 1
                         R.add('CHAIN-1', b, 'advance-restarts-at-the-last-line-start', v == F[3] - Aff.const(consts[3]), site(b, b.blocks[x].stmts[0].line),
                               'new record start %r; the record end was stored as (line start after the quality line) %+d' % (v, consts[3]))
     if nadv == 0:
-        R.add('CHAIN-1', b0, 'advance-restarts-at-the-last-line-start', False, where, 'no assignment of the record start from the record end found')
+        R.undecided('CHAIN-1', b0, 'advance-restarts-at-the-last-line-start', where, 'no assignment of the record start from the record end found in a form this rule follows: not judged')
     # every other user of the finder: each search starts at the predecessor of the field it fills
     for b in users:
         if b is b0:
